@@ -44,11 +44,12 @@ type locker interface {
 func skey(k int) string { return fmt.Sprintf("key/%d", k) }
 
 type anyLocker struct {
-	l   keylock.Locker
-	str bool
-	mix bool // distinct keys that are the same number in different integer types (and a string)
-	odd int  // 1..3: keys of unusual dynamic kinds (kinds.go: un-sharded / SimpleIndex / XHashIndex table)
-	off int
+	l      keylock.Locker
+	str    bool
+	mix    bool // distinct keys that are the same number in different integer types (and a string)
+	unread bool // the entry count could not be read once (see watched): not tried again
+	odd    int  // 1..3: keys of unusual dynamic kinds (kinds.go: un-sharded / SimpleIndex / XHashIndex table)
+	off    int
 }
 
 func (a *anyLocker) key(k int) interface{} {
@@ -95,12 +96,17 @@ func (a *anyLocker) unlock(ks []int, m string, _ bool) {
 		a.l.RUnlock(a.key(ks[0]))
 	}
 }
-func (a *anyLocker) entries() int { return watched(func() int { return keylock.VerifEntries(a.l) }) }
-func (a *anyLocker) multi() bool  { return false }
+func (a *anyLocker) entries() int {
+	return watched(&a.unread, func() int { return keylock.VerifEntries(a.l) })
+}
+func (a *anyLocker) multi() bool { return false }
 
 type tLocker[T comparable] struct {
-	l  keylock.TLocker[T]
-	mk func(int) T
+	l      keylock.TLocker[T]
+	mk     func(int) T
+	unread bool
+	bmu    sync.Mutex
+	free   [][]T // buffers the callers use again
 }
 
 var nilLists int
@@ -111,9 +117,18 @@ func (t *tLocker[T]) keys(ks []int) []T {
 			return nil // "no keys" is spelled nil as often as empty
 		}
 	}
-	out := make([]T, len(ks), len(ks)+2)
-	for i, k := range ks {
-		out[i] = t.mk(k)
+	// callers reuse their buffers: a list is built in a buffer an earlier call was given (and has
+	// written over since), so a locker that remembers lists by where they live meets other contents
+	t.bmu.Lock()
+	var out []T
+	if n := len(t.free); n > 0 && cap(t.free[n-1]) >= len(ks)+2 {
+		out, t.free = t.free[n-1][:0], t.free[:n-1]
+	} else {
+		out = make([]T, 0, 42)
+	}
+	t.bmu.Unlock()
+	for _, k := range ks {
+		out = append(out, t.mk(k))
 	}
 	return out
 }
@@ -125,6 +140,11 @@ func (t *tLocker[T]) scribble(kk []T) {
 		kk[i] = t.mk(39)
 	}
 	_ = append(kk, t.mk(38), t.mk(37))
+	if cap(kk) > 0 {
+		t.bmu.Lock()
+		t.free = append(t.free, kk)
+		t.bmu.Unlock()
+	}
 }
 func (t *tLocker[T]) lock(ks []int, m string, multiAPI bool) {
 	switch {
@@ -158,20 +178,26 @@ func (t *tLocker[T]) unlock(ks []int, m string, multiAPI bool) {
 		t.scribble(kk)
 	}
 }
-func (t *tLocker[T]) entries() int { return watched(func() int { return keylock.VerifEntriesT(t.l) }) }
-func (t *tLocker[T]) multi() bool  { return true }
+func (t *tLocker[T]) entries() int {
+	return watched(&t.unread, func() int { return keylock.VerifEntriesT(t.l) })
+}
+func (t *tLocker[T]) multi() bool { return true }
 
 // watched: the entry count is read under the locker's table mutex.  A call that panicked inside the
 // locker (recovered by guard, reported as that worker's status) may have left the mutex locked for
 // good; the reader then never comes back.  That is an observation (-2: "could not be read"), not the
 // end of the harness - Go's "all goroutines are asleep" detector must not be what ends it.
-func watched(f func() int) int {
+func watched(unread *bool, f func() int) int {
+	if *unread {
+		return -2
+	}
 	ch := make(chan int, 1)
 	go func() { ch <- f() }()
 	select {
 	case n := <-ch:
 		return n
 	case <-time.After(3 * time.Second):
+		*unread = true
 		return -2
 	}
 }
@@ -193,19 +219,19 @@ func newLocker(variant string, shards int) locker {
 	case "klgx-odd":
 		return &anyLocker{l: keylock.NewXHashKeyLockeGrp(opt), odd: 3, off: lockerCount}
 	case "tk-struct":
-		return &tLocker[pk]{keylock.NewTKeyLocker[pk](), func(k int) pk { return pk{k % 3, fmt.Sprint(k / 3)} }}
+		return &tLocker[pk]{l: keylock.NewTKeyLocker[pk](), mk: func(k int) pk { return pk{k % 3, fmt.Sprint(k / 3)} }}
 	case "tk-arr":
-		return &tLocker[[2]int]{keylock.NewTKeyLocker[[2]int](), func(k int) [2]int { return [2]int{k % 2, k / 2} }}
+		return &tLocker[[2]int]{l: keylock.NewTKeyLocker[[2]int](), mk: func(k int) [2]int { return [2]int{k % 2, k / 2} }}
 	case "tk-ptr":
-		return &tLocker[*int]{keylock.NewTKeyLocker[*int](), func(k int) *int { return ptrKeys[k%len(ptrKeys)] }}
+		return &tLocker[*int]{l: keylock.NewTKeyLocker[*int](), mk: func(k int) *int { return ptrKeys[k%len(ptrKeys)] }}
 	case "tkg-bs":
-		return &tLocker[bsKey]{keylock.NewTKeyLockeGrp[bsKey](opt), func(k int) bsKey { return bsKey{k} }}
+		return &tLocker[bsKey]{l: keylock.NewTKeyLockeGrp[bsKey](opt), mk: func(k int) bsKey { return bsKey{k} }}
 	case "tkgx-bs":
-		return &tLocker[bsKey]{keylock.NewTXHashTKeyLockeGrp[bsKey](opt), func(k int) bsKey { return bsKey{k} }}
+		return &tLocker[bsKey]{l: keylock.NewTXHashTKeyLockeGrp[bsKey](opt), mk: func(k int) bsKey { return bsKey{k} }}
 	case "tkg-hit":
-		return &tLocker[hitKey]{keylock.NewTKeyLockeGrp[hitKey](opt), func(k int) hitKey { return hitKey{k} }}
+		return &tLocker[hitKey]{l: keylock.NewTKeyLockeGrp[hitKey](opt), mk: func(k int) hitKey { return hitKey{k} }}
 	case "tkg-u8":
-		return &tLocker[uint8]{keylock.NewTKeyLockeGrp[uint8](opt), func(k int) uint8 { return uint8(k) }}
+		return &tLocker[uint8]{l: keylock.NewTKeyLockeGrp[uint8](opt), mk: func(k int) uint8 { return uint8(k) }}
 	case "kl-int":
 		return &anyLocker{l: keylock.NewKeyLocker()}
 	case "kl-str":
@@ -221,17 +247,17 @@ func newLocker(variant string, shards int) locker {
 	case "klgx-mix":
 		return &anyLocker{l: keylock.NewXHashKeyLockeGrp(opt), mix: true}
 	case "tk-int":
-		return &tLocker[int]{keylock.NewTKeyLocker[int](), id}
+		return &tLocker[int]{l: keylock.NewTKeyLocker[int](), mk: id}
 	case "tk-str":
-		return &tLocker[string]{keylock.NewTKeyLocker[string](), skey}
+		return &tLocker[string]{l: keylock.NewTKeyLocker[string](), mk: skey}
 	case "tkg-int":
-		return &tLocker[int]{keylock.NewTKeyLockeGrp[int](opt), id}
+		return &tLocker[int]{l: keylock.NewTKeyLockeGrp[int](opt), mk: id}
 	case "tkg-str":
-		return &tLocker[string]{keylock.NewTKeyLockeGrp[string](opt), skey}
+		return &tLocker[string]{l: keylock.NewTKeyLockeGrp[string](opt), mk: skey}
 	case "tkgx-int":
-		return &tLocker[int]{keylock.NewTXHashTKeyLockeGrp[int](opt), id}
+		return &tLocker[int]{l: keylock.NewTXHashTKeyLockeGrp[int](opt), mk: id}
 	case "tkgx-str":
-		return &tLocker[string]{keylock.NewTXHashTKeyLockeGrp[string](opt), skey}
+		return &tLocker[string]{l: keylock.NewTXHashTKeyLockeGrp[string](opt), mk: skey}
 	}
 	tr.Fatal("variant %s", variant)
 	return nil
